@@ -29,6 +29,19 @@ theorem bad_local_is_error (ents order : List Ent) (f : Ent) (hf : f ∈ order)
     · rw [this.2 k hk] at hc; cases hc
     · rw [this.1] at hd; cases hd
 
+/-- `blockaddress(@f, %l)` anywhere in the module — a global initialiser, a metadata field, a function body, a
+    module-level `uselistorder` — whose `@f` is not a defined function or whose `%l` is not a block that
+    function defines makes translation fail, whatever the visiting order -/
+theorem undefined_block_is_error (ents order : List Ent) (e : Ent) (he : e ∈ order)
+    (b : String × String) (hb : b ∈ e.brefs) (hbad : blockOK ents b = false) :
+    (translate ents order).isOk = false := by
+  cases hok : (translate ents order).isOk with
+  | false => rfl
+  | true =>
+    have h := (translate_isOk_iff ents order).mp hok
+    have := entErr_none_blocks ents e (h.2 e he) b hb
+    rw [hbad] at this; cases this
+
 /-- a doubly defined type (previous definition not opaque), comdat, global entity or metadata ID is an error -/
 theorem duplicate_definition_is_error (ents order : List Ent) (h : (dupErr ents).isSome = true) :
     (translate ents order).isOk = false := by
@@ -40,7 +53,7 @@ theorem duplicate_definition_is_error (ents order : List Ent) (h : (dupErr ents)
 
 /-- the documented exception: an undefined attribute-group ID is not an error -/
 theorem undefined_attrgroup_is_accepted :
-    (translate [⟨.func, "f", false, [(.attrgroup, "7")], [], []⟩] [⟨.func, "f", false, [(.attrgroup, "7")], [], []⟩]).isOk = true := by
+    (translate [⟨.func, "f", false, [(.attrgroup, "7")], [], [], []⟩] [⟨.func, "f", false, [(.attrgroup, "7")], [], [], []⟩]).isOk = true := by
   decide
 
 /-- the model never crashes: the only outcomes are a module or an error (by construction of `Outcome`),
@@ -52,7 +65,14 @@ theorem outcome_total (ents order : List Ent) :
   | error e => exact Or.inr ⟨e, rfl⟩
 
 /-- concrete faults (non-vacuity) -/
-example : (translate [⟨.global, "g", false, [(.global, "undef")], [], []⟩] [⟨.global, "g", false, [(.global, "undef")], [], []⟩]).isOk = false := by decide
-example : (dupErr [⟨.md, "3", false, [], [], []⟩, ⟨.md, "3", false, [], [], []⟩]).isSome = true := by decide
+example : (translate [⟨.global, "g", false, [(.global, "undef")], [], [], []⟩] [⟨.global, "g", false, [(.global, "undef")], [], [], []⟩]).isOk = false := by decide
+example : (dupErr [⟨.md, "3", false, [], [], [], []⟩, ⟨.md, "3", false, [], [], [], []⟩]).isSome = true := by decide
+
+example : (translate
+    [⟨.func, "f", false, [], ["entry"], [], []⟩, ⟨.uselist, "#", false, [(.global, "f")], [], [], [("f", "nosuchblock")]⟩]
+    [⟨.func, "f", false, [], ["entry"], [], []⟩, ⟨.uselist, "#", false, [(.global, "f")], [], [], [("f", "nosuchblock")]⟩]).isOk = false := by decide
+example : (translate
+    [⟨.func, "f", false, [], ["entry"], [], []⟩, ⟨.uselist, "#", false, [(.global, "f")], [], [], [("f", "entry")]⟩]
+    [⟨.func, "f", false, [], ["entry"], [], []⟩, ⟨.uselist, "#", false, [(.global, "f")], [], [], [("f", "entry")]⟩]).isOk = true := by decide
 
 end Llir.Props.C05
